@@ -19,17 +19,17 @@ pub fn is_special(c: char) -> bool {
     }
 }
 
-// parse.rs:930
+// parse.rs:922
 pub fn is_digit(b: u8) -> bool {
     b'0' <= b && b <= b'9'
 }
 
-// parse.rs:934
+// parse.rs:926
 pub fn is_hex_digit(b: u8) -> bool {
     is_digit(b) || (b'a' <= (b | 32) && (b | 32) <= b'f')
 }
 
-// parse.rs:926
+// parse.rs:918
 pub fn is_id_char(c: char) -> bool {
     c.is_alphanumeric() || c == '_'
 }
